@@ -293,12 +293,50 @@ def translate_one(repo, rel, fn, callees, consts):
     except Exception as ex:
         return "⟨[], HArg.lit [], some %s⟩" % lean_str("translator error %s: %s" % (type(ex).__name__, ex))
 
+KEY_CTORS = [("tbcEncNew", "src/tbc_header/encrypt.rs"), ("tbcDecNew", "src/tbc_header/decrypt.rs")]
+
+def key_ctor(repo, rel):
+    """`EncrypterHalf::new` / `DecrypterHalf::new` of the TBC cipher: the whole body has to be
+
+        const N: usize = <n>;  let s: [u8; N] = [<bytes>];  let mut h: Hmac<Sha1> = Hmac::new_from_slice(s.as_slice()).unwrap();
+        h.update(&<parameter>);  let key = h.finalize().into_bytes().as_slice().try_into().unwrap();  Self { key, index: <i>, previous_value: <p> }
+
+    -> (HashProg for the key, initial index, initial chaining byte)"""
+    bad = lambda why: ("⟨[], HArg.lit [], some %s⟩" % lean_str(why), 0, 0)
+    try:
+        text = gc.load(repo, rel)
+        body = gc.fn_body(text, "new", rel, unique=True)
+        msk = gc.mask_literals(text)
+        sig = re.search(r"\bfn\s+new\s*\(\s*(\w+)\s*:\s*\[u8;\s*SESSION_KEY_LENGTH as usize\]\s*\)\s*->\s*Self\s*\{", msk)
+        if not sig: raise Unsupported("signature of new in " + rel)
+        t = norm(body.strip()[1:-1])
+        m = re.fullmatch(r"const (\w+):usize=(\d+);let (\w+):\[u8;\1\]=\[([^\]]*)\];let mut (\w+):Hmac<Sha1>=Hmac::new_from_slice\(\3\.as_slice\(\)\)\.unwrap\(\);"
+                         r"\5\.update\(&(\w+)\);let (\w+)=\5\.finalize\(\)\.into_bytes\(\)\.as_slice\(\)\.try_into\(\)\.unwrap\(\);"
+                         r"Self\{(?:key:\7|key),index:(\d+),previous_value:(\d+),?\}", t)
+        if not m: raise Unsupported("new outside its frame: " + t[:200])
+        if m.group(7) != "key" and "key:" + m.group(7) not in t: raise Unsupported("the key field is not the HMAC output")
+        if m.group(6) != sig.group(1): raise Unsupported("the HMAC is not over the parameter " + sig.group(1))
+        if len({m.group(1), m.group(3), sig.group(1)}) != 3: raise Unsupported("names")
+        seed = gc.parse_array(m.group(4))
+        if len(seed) != int(m.group(2)) or any(not 0 <= x <= 255 for x in seed): raise Unsupported("seed literal")
+        gg.hash_types(text, rel, True, uses_digest=False)
+        gg.fn_header(text, rel, "new")
+        gg.never_bound(text, rel, ["as_slice", "try_into", "into_bytes", "unwrap"])
+        return ("⟨[HStmt.hmac (HArg.lit %s) [HArg.param 0]], HArg.loc 0, none⟩" % gc.lean_bytes(seed), int(m.group(8)), int(m.group(9)))
+    except (Unsupported, gg.Unsupported, gc.Missing) as ex:
+        return bad(str(ex))
+    except Exception as ex:
+        return bad("translator error %s: %s" % (type(ex).__name__, ex))
+
 def main(repo, outp):
     try: consts = consts_table(repo)
     except Exception: consts = gc.Consts()
     defs = []
     for lname, rel, fn, callees in TARGETS:
         defs.append("/-- `%s` in %s -/\ndef %s : HashProg := %s" % (fn, rel, lname, translate_one(repo, rel, fn, callees, consts)))
+    for lname, rel in KEY_CTORS:
+        prog, idx, prev = key_ctor(repo, rel)
+        defs.append("/-- `new` in %s: the key, the initial position, the initial chaining byte -/\ndef %s : HashProg := %s\ndef %sIndex : Nat := %d\ndef %sPrev : Nat := %d" % (rel, lname, prog, lname, idx, lname, prev))
     text = ("/- GENERATED by tools/gen_hash.py from the Rust sources on every run. Do not edit. -/\nimport WowSrp.Model.MiniHash\n"
             "namespace WowSrp.Gen.CodeHash\nopen WowSrp.MiniHash\n\n" + "\n\n".join(defs) + "\n\nend WowSrp.Gen.CodeHash\n")
     old = open(outp).read() if os.path.exists(outp) else None
